@@ -183,6 +183,21 @@ impl<E: ElemT> TableDrv<E> {
     }
 
     pub fn exec(&mut self, mut ev: Event, tr: &mut Tracer) -> String {
+        // a table lost to a faulted call (e.g. a destructor panic while it was being dropped) is re-created first
+        if ev.op != "new" && ev.op != "with_capacity" && ev.op != "drop" {
+            let mut need = vec![];
+            if self.tabs[ev.t - 1].is_none() {
+                need.push(ev.t);
+            }
+            if ev.u >= 1 && ev.u <= self.tabs.len() && ev.u != ev.t && self.tabs[ev.u - 1].is_none() {
+                need.push(ev.u);
+            }
+            for t in need {
+                let mut e2 = Event::new("new", t);
+                e2.n = (t - 1).min(1) as i64;
+                self.exec(e2, tr);
+            }
+        }
         tr.raw(&format!("{{\"op\":\"begin\",\"name\":\"{}\",\"t\":{},\"k\":{},\"n\":{}}}", ev.op, ev.t, ev.k, ev.n));
         if !E::TRACKED {
             ev.v = 0;
@@ -197,6 +212,7 @@ impl<E: ElemT> TableDrv<E> {
             }
         }
         env::begin_window();
+        env::arm(&ev.fa, ev.fk);
         let res = catch_unwind(AssertUnwindSafe(|| self.body(&mut ev)));
         if let Err(p) = res {
             if let Some(ip) = p.downcast_ref::<InjectedPanic>() {
@@ -230,15 +246,15 @@ impl<E: ElemT> TableDrv<E> {
         let h = if ev.k >= 0 { env::plan_hash(hp, k) } else { 0 };
         match ev.op.as_str() {
             "new" => {
-                self.tabs[t - 1] = None;
+                drop(self.tabs[t - 1].take());
                 self.tabs[t - 1] = Some(HashTable::new_in(CheckingAlloc));
             }
             "with_capacity" => {
-                self.tabs[t - 1] = None;
+                drop(self.tabs[t - 1].take());
                 self.tabs[t - 1] = Some(HashTable::with_capacity_in(ev.n as usize, CheckingAlloc));
             }
             "drop" => {
-                self.tabs[t - 1] = None;
+                drop(self.tabs[t - 1].take());
             }
             "t_insert_unique" => {
                 let el = E::make(k, vv, h);
@@ -547,7 +563,7 @@ impl<E: ElemT> TableDrv<E> {
             }
             "clone" => {
                 let c = self.tabs[t - 1].as_ref().unwrap().clone();
-                self.tabs[ev.u - 1] = None;
+                drop(self.tabs[ev.u - 1].take());
                 self.tabs[ev.u - 1] = Some(c);
             }
             "clone_from" => {
